@@ -67,8 +67,13 @@ def eval_dyad_amend(a, b, backend):
         return r
     r = np_backend.array(a) # clone
     kind = getattr(r.dtype, 'kind', None)
+    if kind is None: # a tensor: its dtype has no kind letter
+        kind = 'f' if getattr(r.dtype, 'is_floating_point', False) else 'i'
     if getattr(r, 'ndim', 0) == 1 and not is_list(v) and (kind == 'O' or (kind == 'f' and backend.is_number(v)) or (kind in 'iu' and backend.is_integer(v))):
-        numpy.put(r, numpy.asarray(b[1:],dtype=int), v)
+        if isinstance(r, numpy.ndarray):
+            numpy.put(r, numpy.asarray(b[1:],dtype=int), v)
+        else:
+            r[[int(i) for i in b[1:]]] = backend.scalar_to_python(v)
         return r
     # positions name members of "a" (the rows of a matrix), and the value may be of another kind than the members
     r = [x for x in r]
